@@ -55,7 +55,7 @@ PATTERNS = [
     "unit-parameter", "locals-and-conditionals", "untranslatable", "same-name-coinciding-specialisation",
     "repeated-arg-same-specialisation", "hard-literals", "repeated-arg-name-clash", "ignored-param-repeated-last",
     "ignored-param-repeated-first", "local-import-shadows-module-helper", "generator-internal-names", "edge-tuple-untranslatable",
-    "edge-signature-variants",
+    "edge-signature-variants", "same-name-initial-assignments-first", "same-name-initial-assignments-last",
 ]
 EDGE_PATTERNS = {"edge-tuple-untranslatable", "edge-signature-variants"}  # generation may refuse these; whatever it emits must compute the function's value
 STATES = c07.STATES
@@ -90,6 +90,14 @@ def build_model(case):
     elif p == "same-name-last":
         m.add_reaction("rs2", F.ma1, args=["x1", "kc"], stoichiometry={"x1": -1})
         m.add_reaction("rs", F2.ma1, args=["x1", "k2"], stoichiometry={"x1": -1})
+    elif p in ("same-name-initial-assignments-first", "same-name-initial-assignments-last"):
+        # two DIFFERENT functions of one name behind the initial assignments of two parameters (and of a variable)
+        fa, fb = (F.add2, F2.add2) if p.endswith("first") else (F2.add2, F.add2)
+        m.add_parameter("q5", InitialAssignment(fn=fa, args=["k1", "k2"]))
+        m.add_parameter("q6", InitialAssignment(fn=fb, args=["k1", "k2"]))
+        m.add_variable("w", InitialAssignment(fn=fb, args=["k1", "kc"]))
+        m.add_reaction("rs", F.ma1, args=["x1", "q5"], stoichiometry={"x1": -1})
+        m.add_reaction("rs2", F.ma1, args=["w", "q6"], stoichiometry={"w": -1, "x1": 1})
     elif p == "same-name-derived":
         m.add_derived("s1", F2.add2, args=["x1", "k1"])
         m.add_derived("s2", F.add2, args=["x1", "k1"])
